@@ -35,6 +35,7 @@ class Link(object):
             self.keep = a
             self.peer_sock = b
             self.child = fdpexpect.fdspawn(a.fileno(), **kw)
+            self._start_drain()
         elif kind == 'pipe':
             r, w = os.pipe()
             self.peer_fd = w
@@ -45,6 +46,7 @@ class Link(object):
             self.peer_sock = b
             self.sock = a
             self.child = socket_pexpect.SocketSpawn(a, **kw)
+            self._start_drain()
         elif kind == 'popen':
             self.pup = Puppet()
             self.child = popen_spawn.PopenSpawn(self.pup.argv, **kw)
@@ -90,23 +92,37 @@ class Link(object):
                 self.pup.wait_received(n)
             return self.pup.received()
         if self.peer_sock is not None:
-            out = b''
-            self.peer_sock.setblocking(False)
+            self._start_drain()
             t0 = time.time()
+            while n is not None and len(self._rx) < n and time.time() - t0 < 15 and not self._rx_eof:
+                time.sleep(0.0005)
+            if n is None:
+                time.sleep(0.01)
+            return bytes(self._rx)
+        return b''
+
+    def _start_drain(self):
+        """In-process peers read concurrently (a large send would otherwise
+        block on a full socket buffer)."""
+        if getattr(self, '_drain', None) is not None:
+            return
+        import threading
+        self._rx = bytearray()
+        self._rx_eof = False
+        sock = self.peer_sock
+
+        def run():
             while True:
                 try:
-                    d = self.peer_sock.recv(1 << 20)
-                    if not d:
-                        break
-                    out += d
-                except BlockingIOError:
-                    if n is None or len(out) >= n or time.time() - t0 > 10:
-                        break
-                    time.sleep(0.001)
-            self.peer_sock.setblocking(True)
-            self._rx = getattr(self, '_rx', b'') + out
-            return self._rx
-        return b''
+                    d = sock.recv(1 << 16)
+                except OSError:
+                    d = b''
+                if not d:
+                    self._rx_eof = True
+                    return
+                self._rx.extend(d)
+        self._drain = threading.Thread(target=run, daemon=True)
+        self._drain.start()
 
     def cleanup(self):
         c = self.child
